@@ -629,9 +629,31 @@ func ruleSignConv(r *Run) {
 					continue
 				}
 				var op token.Token
-				if p.sameValue(bo.X, src) && isUnsignedInt(bo.X.Type()) {
+				// the compared operand is the length itself, or a widening of it that keeps every value
+				// (int64(size) on a 32-bit target) compared against something that fits the destination type
+				peel := func(v ssa.Value) ssa.Value {
+					for {
+						c, ok := v.(*ssa.Convert)
+						if !ok || !p.valuePreserving(c.X.Type(), c.Type()) {
+							return v
+						}
+						v = c.X
+					}
+				}
+				fits := func(side, other ssa.Value) bool {
+					if isUnsignedInt(side.Type()) {
+						return true // compared in the unsigned domain (rule as before)
+					}
+					// widened to a signed type: the bound must itself be representable in the destination
+					if k, ok := constInt(other); ok {
+						return k >= 0 && (p.sizes().Sizeof(tb) >= 8 || k < int64(1)<<uint(p.sizes().Sizeof(tb)*8-1))
+					}
+					ob := peel(other)
+					return p.valuePreserving(ob.Type(), cv.Type())
+				}
+				if p.sameValue(peel(bo.X), src) && fits(bo.X, bo.Y) {
 					op = bo.Op
-				} else if p.sameValue(bo.Y, src) && isUnsignedInt(bo.Y.Type()) {
+				} else if p.sameValue(peel(bo.Y), src) && fits(bo.Y, bo.X) {
 					switch bo.Op {
 					case token.LSS:
 						op = token.GTR
